@@ -28,6 +28,8 @@ Definition red_sum (l : fvec) : PrimFloat.float :=
   match l with [] => fnan | a :: r => fold_left PrimFloat.add r a end.
 Definition red_max (l : fvec) : PrimFloat.float :=
   match l with [] => fnan | a :: r => fold_left (fun a b => if PrimFloat.leb b a then a else b) r a end.
+(* an array-like reducer: sum of squares, accumulated left to right from 0 *)
+Definition red_sumsq (l : fvec) : PrimFloat.float := fold_left (fun acc v => PrimFloat.add acc (PrimFloat.mul v v)) l PrimFloat.zero.
 
 Definition mk_de_in (t : list fvec) (d : option (list fvec)) : de_in NumF := Build_de_in NumF t d.
 Definition mk_nm_in (t : list fvec) (d : option (list fvec)) (ip : bool) (p : list nat) : nm_in NumF := Build_nm_in NumF t d ip p.
